@@ -37,7 +37,7 @@ def record_trace(P, dl, case, rundir, args=(), env=None, exe=None):
     else:
         rc, so, se = run([build.SOUFFLE, "-F", facts, "-D", out] + list(args) + [dl], env=e, timeout=120)
     if rc != 0 or not os.path.exists(tf):
-        return None, "traced run failed rc=%s: %s" % (rc, se[-400:])
+        return None, "traced run failed rc=%s: %s%s" % (rc, "(Segmentation violation signal reported) " if "Segmentation violation signal" in se else "", se[-400:])
     evs = []
     started = exe is not None      # generated code has no driver phases: every line is a statement event
     for line in open(tf):
@@ -49,6 +49,23 @@ def record_trace(P, dl, case, rundir, args=(), env=None, exe=None):
             continue
         evs.append({"e": ev["e"], "sid": ev["sid"], "taken": bool(ev.get("taken", False)), "att": ev.get("att", 0), "sz": ev["sz"]})
     return evs, None
+
+def _tupleid_skip_crash(res, pid, env, err):
+    """known finding C06 skip-TupleId-crashes-after-HoistAggregate reached through a traced run"""
+    from . import known
+    if not (env and "TupleIdTransformer" in env.get("SOUFFLE_VERIF_SKIP_RAM", "")):
+        return False
+    if "Segmentation violation signal" not in err and "rc=-11" not in err:
+        return False
+    kf = known.load(); fid = "skip-TupleId-crashes-after-HoistAggregate"
+    if not known.is_listed(kf, pid, fid):
+        return False
+    msg = known.describe(kf, pid, fid)
+    with res._lock:
+        if msg not in res.known:
+            res.known.append(msg)
+    res.count("known_finding_hits")
+    return True
 
 def edb_value(case):
     return {r: ts for r, ts in case["edb"].items()}
@@ -98,6 +115,8 @@ def check(P, cases, wd, label, res, pid, args=("-j1",), env=None, which="final",
         for k, c in enumerate(sample):
             evs, e2 = record_trace(P, os.path.join(pdir, tag + ".dl"), c, os.path.join(pdir, "%s_t%d" % (tag, k)), args=args, env=env)
             if e2:
+                if _tupleid_skip_crash(res, pid, env, e2):
+                    continue
                 res.violations.append(("[%s trace] %s program=%s" % (tag, e2, P["id"]), os.path.join(pdir, "%s_t%d" % (tag, k))))
                 continue
             traces.append(evs); kept.append(c)
